@@ -64,6 +64,11 @@ def rule_er1(ctx: Ctx) -> RuleResult:
                 if ok:
                     r.ob(after[0].event.store == EVSTORE, lambda: mk_finding(
                         "ER-1", spec, kind, cfg, p, "the mux error does not carry the store of the event", node=after[0].eff.node, extra="store"))
+                after_w = [e for e in p.trace[pos + 1:] if e.k == "store" and e.op in ("set_state", "add_key", "del_key", "add_map", "del_map")]
+                r.ob(not after_w, lambda: mk_finding(
+                    "ER-1", spec, kind, cfg, p,
+                    "while turning the exception into a mux error the handler also changes the key's state (%s): the later items of the key no longer "
+                    "continue 'as if the failing item were absent'" % "; ".join(e.brief() for e in after_w), node=after_w[0].node, extra="state-change-on-error"))
                 if first.k == "ucall":
                     writes = [e for e in p.trace[:pos] if e.k == "store" and e.op in ("set_state", "add_key", "del_key")]
                     ems_before = [e for e in p.trace[:pos] if e.k == "emit"]
